@@ -64,6 +64,7 @@ def export_all(sd_base, wd, tier, timeout, only=None):
             s = json.load(open(p))
             s["cfg"] = harness_cfg(s["chain"])
             s["cfg"]["min_swap_msat"] = s.get("min_swap_msat", 100000000)
+            s["cfg"]["accept_all"] = s.get("accept_all", True)
             scheds.append(s)
         shutil.rmtree(sd, ignore_errors=True)
         return res, scheds, n
@@ -140,12 +141,12 @@ def run_all(tier):
         # de-duplicate identical step lists
         seen, uniq = set(), []
         for s in scheds:
-            k = json.dumps([s["steps"], s["cfg"]], sort_keys=True)
+            k = json.dumps([s["steps"], s["cfg"], s.get("stored_version", "")], sort_keys=True)
             if k not in seen:
                 seen.add(k)
                 uniq.append(s)
         # a schedule that is a proper prefix of another one is covered by the longer one (the harness is deterministic)
-        keys = [(json.dumps(s["cfg"], sort_keys=True), [json.dumps(st, sort_keys=True) for st in s["steps"]]) for s in uniq]
+        keys = [(json.dumps([s["cfg"], s.get("stored_version", "")], sort_keys=True), [json.dumps(st, sort_keys=True) for st in s["steps"]]) for s in uniq]
         byc = {}
         for c, st in keys:
             byc.setdefault(c, set()).update("\x00".join(st[:k]) for k in range(1, len(st)))
